@@ -344,10 +344,12 @@ func (e *Enc) loadLoc(st *State, l *Loc) *Val {
 		// values already in the entry heap are references that existed at entry
 		if lf.Sort == "Int" && lf.Path == "" && isRefLike(lf.T) {
 			a0 := e.declConst(sym(key+"@0"), sort)
+			// (only for containers that existed at entry: the fields of an object a callee allocates are described by
+			// the callee's ensures over the same, unhavocked, array)
 			if l.Kind == 'S' {
-				e.assertTyping("(<= (select (select " + a0 + " " + l.Ref + ") " + l.Idx + ") alloc@0)")
+				e.assertTyping("(=> (<= " + l.Ref + " alloc@0) (<= (select (select " + a0 + " " + l.Ref + ") " + l.Idx + ") alloc@0))")
 			} else {
-				e.assertTyping("(<= (select " + a0 + " " + l.Ref + ") alloc@0)")
+				e.assertTyping("(=> (<= " + l.Ref + " alloc@0) (<= (select " + a0 + " " + l.Ref + ") alloc@0))")
 			}
 		}
 	}
